@@ -127,6 +127,11 @@ func EvalCons(c Conf) []ConsViolation {
 			add("must", "/cons/defdep", "", "defmode=%q", dm)
 		}
 	}
+	if _, ok := c["/cons/defdep2"]; ok {
+		if dm, set := c["/cons/defmode"]; !set || dm != "off" {
+			add("must", "/cons/defdep2", "", "defmode=%q (set=%v, default on)", dm, set)
+		}
+	}
 	// collect list entries
 	entries := func(list string) map[string]map[string]string {
 		res := map[string]map[string]string{}
